@@ -61,6 +61,32 @@ CHECKS = {
    design_ref='DESIGN.md §5 C01',
    note=COMMON_NOTE + "secp256k1 arithmetic and SHA-256 in the driver are executable reference code (validated by vectors / agreement with the library), not verified. "
         "FindAndDelete/OP_CODESEPARATOR are not modelled; the library does not implement legacy non-ALL hash types (it refuses to sign them)."),
+ 'C13': dict(
+   technique='Lean 4 theorems (ECDSA correctness over an abstract prime-order group with Mathlib; low-S rule and exact locus of F10) + model replica of the deterministic signer and an independent verifier run against the library',
+   text=("Proved in Lean (Mathlib ZMod/Module, axioms propext/Classical.choice/Quot.sound): over any ZMod n-module with n prime, a signature made "
+         "with a non-zero nonce verifies under d•G (verify_sign); the (r, -s) twin of a valid signature is valid when negation preserves the "
+         "x-coordinate, so low-S normalisation preserves validity; lowS yields a value in (0, n/2] equal to s or n-s; the pre-fix float threshold gives "
+         "a low S iff the raw s is not in (n/2, 2^255] (F10, found by this check and fixed). The Lean driver re-implements the signer exactly (RFC6979 "
+         "nonce as fastecdsa derives it from sha256 of the ASCII-hex digest, low-S, strict DER): for every generated (key, digest[, nonce]) - incl. "
+         "digests crafted so that s hits n/2, n/2+1, 2^255-1, 2^255, 2^255+1, n-1 - r, s, DER bytes and nonce must be identical; every signature is "
+         "verified by the independent Lean secp256k1 verifier and re-decoded by a strict BIP66 decoder; library-derived nonces are pairwise distinct; "
+         "the library verifier must answer exactly like the standard verifier on r,s in {0,1,n-1,n,n+1,2^256-1,+n}, high-S twins, wrong keys, digest +-1."),
+   design_ref='DESIGN.md §5 C13',
+   note=COMMON_NOTE + "Hypotheses, not theorems: secp256k1's points form a cyclic group of prime order n with x(-R) = x(R); HMAC-SHA256 collision resistance for "
+        "'nonce never shared'. Curve arithmetic, SHA-256, HMAC in the driver are reference code validated by vectors and by agreement with fastecdsa. "
+        "fastecdsa's DER decoder accepts long-form lengths; such encodings are counted when they read back as the same (r, s)."),
+ 'C03': dict(
+   technique='Lean 4 theorems (CKDpriv/CKDpub commute at every split point, hardened never from public, over an abstract group) + independent executable BIP32 in Lean run against HDKey',
+   text=("Proved in Lean over an abstract ZMod n-module with arbitrary HMAC / serialisation / fingerprint functions: N(CKDpriv(x,i)) = CKDpub(N(x),i) "
+         "for every non-hardened i including chain code, depth, parent fingerprint and child number; CKDpub fails for every i >= 2^31 and a public "
+         "derivation along any path containing a hardened element fails; for any p1 and any non-hardened p2 of any length, private derivation along "
+         "p1++p2 then neutering equals private along p1, neutering, public along p2 (induction, unbounded depth); depth bookkeeping. The driver contains "
+         "an independent BIP32 (HMAC-SHA512, secp256k1, HASH160 reference code; BIP32 vector chains) compared with HDKey.from_seed/subkey_for_path/"
+         "child_private/child_public on seeds of 16..64 bytes, depths to 8 (20), boundary indices, all five hardened spellings, m/ and M/ prefixes, every "
+         "split point with the public part re-imported from its xpub string. Found and fixed through this check: F08."),
+   design_ref='DESIGN.md §5 C03',
+   note=COMMON_NOTE + "The error branches of BIP32 (I_L >= n, child key 0 / point at infinity) are in the executable model but outside the algebraic theorems; "
+        "they have probability < 2^-127 and are not reachable by search."),
 }
 
 NOT_YET = {}
